@@ -709,7 +709,11 @@ func (s *Sched) tick(st *settleReq, now time.Time, voluntary bool) {
 	if voluntary {
 		// other (harness) actions are enabled: let a random, modest amount of
 		// time pass (log-uniform 100us .. ~6s) instead of jumping to the next timer
-		d = time.Duration(100e3 * float64(uint64(1)<<uint(s.rng.Intn(17))) * (1 + s.rng.Float64()))
+		// derived from (seed, step), not from the policy stream: a replay that follows
+		// recorded decisions draws nothing from the policy stream and must still
+		// advance the clock by exactly the same amounts
+		h := HashStr(s.Seed, "tick|"+strconv.FormatUint(s.step.Load(), 10))
+		d = time.Duration(100e3 * float64(uint64(1)<<uint(h%17)) * (1 + float64(mix(h)>>11)/(1<<53)))
 	}
 	for _, src := range s.sources {
 		if nd, ok := src.NextDue(now); ok && nd < d {
